@@ -29,7 +29,8 @@ REQUIRED = ["Sqfs.C04.readNumber_exact_or_error", "Sqfs.C04.number_roundtrip", "
             "Sqfs.C04.fixpoint_tree_level", "Sqfs.C04.fixpoint_idempotent", "Sqfs.C04.decode_header_spec",
             "Sqfs.C04.read_header_plain_block", "Sqfs.C04.read_header_after_records", "Sqfs.C04.gnu_long_records",
             "Sqfs.C04.gnu_long_name_member", "Sqfs.C04.pax_record_spec", "Sqfs.C04.retarget_spec",
-            "Sqfs.C04.pax_record_roundtrip", "Sqfs.C04.pax_payload_roundtrip", "Sqfs.C04.pax_sparse_map_replaces"]
+            "Sqfs.C04.pax_record_roundtrip", "Sqfs.C04.pax_payload_roundtrip", "Sqfs.C04.pax_sparse_map_replaces",
+            "Sqfs.C04.hardlink_filter_spec"]
 EXCLUDE = ("lib/tar/src/write_header.c", "lib/tar/src/read_header.c")     # #included by the harness (static helpers)
 U64 = 1 << 64
 
@@ -2204,7 +2205,8 @@ def run(ctx):
 
 TRUSTED = [
     "modelled, not verified directly: the C text of lib/tar/src/{number,checksum,write_header,read_header,pax_header,read_sparse_map_old,"
-    "read_sparse_map_new,iterator,record_to_memory,padd_file}.c and bin/tar2sqfs/src/process_tarball.c; C strings are their bytes before the NUL; "
+    "read_sparse_map_new,iterator,record_to_memory,padd_file}.c, bin/tar2sqfs/src/process_tarball.c, bin/sqfs2tar/src/{sqfs2tar,iterator}.c, "
+    "lib/sqfs/src/io/dir_hl.c, sqfs_istream_skip of lib/sqfs/src/io/stream_api.c; C strings are their bytes before the NUL; "
     "sqfs_u64 arithmetic is Nat arithmetic with explicit `% 2^64` where the C code can wrap",
     "harness/h_c04.c (includes write_header.c and read_header.c textually to reach the static helpers), tools/checks/c04.py, tools/checks/c04_tools.py",
     "tool level: GNU tar 1.34 and Python tarfile as independent readers; rdsquashfs (built from the same tree) as image observer",
